@@ -18,7 +18,7 @@ MIN_COUNTERS = dict(quick={'shape_asserted': 1400, 'neighbour_independence_asser
                            'scalar_equivalence_asserted:bitwise': 600, 'scalar_equivalence_asserted:within_estimate': 200,
                            'forwarding_asserted': 1400, 'cases_where_columns_chose_different_rows': 300,
                            'cases_with_nonfinite_neighbours': 30},
-                    thorough={'neighbour_independence_asserted': 50000})
+                    thorough={'neighbour_independence_asserted': 30000})
 RULE = ('shapes with 0..3 axes and <= 40 elements; methods central/forward/backward/complex/multicomplex; n <= 4, order <= 6; '
         'six elementwise test functions built from + - * / sqrt (some with a bounded domain, so replaced neighbours can make '
         'steps leave the domain); the other elements are replaced by random values, then the element is evaluated alone as a '
